@@ -143,14 +143,16 @@ def native_shift_waveform(rng):
         t = np.arange(nlen)
         base = np.stack([-a_ * np.exp(-0.5 * ((t - nlen * 0.42) / 3.0) ** 2) + 0.3 * a_ * np.exp(-0.5 * ((t - nlen * 0.42 - 10) / 6.0) ** 2) for a_ in (1.0, 0.6, 0.3)])   # (trace, time)
         jit = (0.0, 1.3, -2.0, 0.0, 0.4)
-        for cluster in ("single spike", "identical copies", "jittered", "jittered, one trace outside the probe (all NaN)", "jittered, NaN trace first"):
+        for cluster in ("single spike", "identical copies", "jittered", "jittered, one trace outside the probe (all NaN)", "jittered, NaN trace first", "jittered, followed by more all-NaN waveforms than spikes"):
             if cluster == "single spike":
                 wfs = base[None].astype(dt)
             elif cluster == "identical copies":
                 wfs = np.stack([base] * 4).astype(dt)
             else:
                 wfs = np.stack([F.fshift(base, s_, axis=-1) for s_ in jit]).astype(dt)
-                if "NaN" in cluster:      # what the extraction returns for the channels of the neighbourhood that lie outside the probe
+                if "more all-NaN waveforms" in cluster:     # a unit with fewer spikes than rows reserved for it: the rest of its block is NaN
+                    wfs = np.concatenate([wfs, np.full((wfs.shape[0] + 3,) + wfs.shape[1:], np.nan, dtype=dt)], axis=0)
+                elif "NaN" in cluster:      # what the extraction returns for the channels of the neighbourhood that lie outside the probe
                     pad = np.full((wfs.shape[0], 1, nlen), np.nan, dtype=dt)
                     wfs = np.concatenate([pad, wfs] if "first" in cluster else [wfs, pad], axis=1)
             out, sh = W.shift_waveform(wfs.copy())
@@ -163,7 +165,7 @@ def native_shift_waveform(rng):
                     bad.append(("waveform not moved by the shift reported for it (a shift of 0 must return it unchanged)", nlen, cluster, i, float(sh[i]), float(np.nanmax(np.abs(out[i] - want)))))
             if cluster.startswith("jittered"):
                 # copies of one waveform delayed by known amounts: the shifts applied undo the delays (up to one common offset), so that the copies re-align
-                resid = np.asarray(sh, dtype=float) + np.asarray(jit)
+                resid = np.asarray(sh, dtype=float)[:len(jit)] + np.asarray(jit)
                 if not np.all(np.abs(resid - resid[0]) < 0.1):
                     bad.append(("delayed copies of one waveform are not re-aligned: shift applied + delay is not the same for every copy", nlen, cluster, np.round(resid, 2).tolist()))
     return bad
